@@ -24,8 +24,8 @@ def side_pots(contrib: list, live: list, dead: Any = 0) -> list:
     prev = 0
     carry = dead
     for lv in levels:
-        if lv == 0:
-            continue
+        # chips between the previous level and this one, from everybody who reached it; dead money
+        # (untrimmed antes) joins the first pot, which every live player contests
         amount = carry
         carry = 0
         for i in range(n):
